@@ -6,7 +6,7 @@ from ahbicht.models.condition_nodes import (ConditionFulfilledValue, EvaluatedCo
                                             UnevaluatedFormatConstraint)
 from contracts.rc_transformer import CANDS, fcv, node
 from pyvc import assumed
-from pyvc.contracts import AnyOf, Const, DictOf, Enum, Inst, Node, Opt, Raw, Str, contract
+from pyvc.contracts import AnyOf, Bool, Const, DictOf, Enum, Inst, Node, Opt, Raw, Str, contract
 from pyvc.values import Opaque, Sc
 from specs.ghost import fx_meaning
 from specs.logic import F, K, N, U
@@ -73,6 +73,10 @@ class RequirementConstraintEvaluation:
     """(fulfilled, conditional) = outcome(state of the evaluated root); hints / format-constraint expression are those
     of the root (a bare format constraint yields "[key]")"""
     cases = [dict(condition_expression=Str()), dict(condition_expression=tree_param())]
+    returns = Inst("RequirementConstraintEvaluationResult", requirement_constraints_fulfilled=Opt(Bool()),
+                   requirement_is_conditional=Opt(Bool()), format_constraints_expression=Opt(Str()), hints=Opt(Str()))
+    ghost_out = ["rce_result"]
+    ghost_specs = {"fold_root": node}
     clause_props = {"post_outcome": ["C04"], "post_fc_expression_of_root": ["C07"], "post_hints_of_root": ["C04", "C09"],
                     "raises-only-declared": ["C04"]}
     raises = {"SyntaxError": None, "ValueError": None, "InvalidExpressionError": None, "NotImplementedError": None,
